@@ -159,11 +159,15 @@ impl Check for C19 {
 
     fn run(&self, run: &Run) {
         let q = false;
-        run.rule("every assignment of a 12-value pixel alphabet to surfaces with up to 4 pixels, and a one-hot scan (every position x every value over two backgrounds) for the larger sizes up to 3x3, is built with from_vec and observed through get_data, get_data_u8, both mutable views, write_png (decoded with the png crate), into_vec, from_backing, into_inner; SolidSource::to_u32 over a 17^4 channel grid; non-trivial = surface has at least one pixel");
+        run.rule("every assignment of a 12-value pixel alphabet to surfaces with up to 4 pixels (5 in the thorough tier), and a one-hot scan (every position x every value over two backgrounds) for the larger sizes up to 3x3, is built with from_vec and observed through get_data, get_data_u8, both mutable views, write_png (decoded with the png crate), into_vec, from_backing, into_inner; SolidSource::to_u32 over a 17^4 channel grid; non-trivial = surface has at least one pixel");
         run.assume("little-endian host for the byte-view clause; the png crate's decoder is trusted");
         let root = run.root.clone();
         // full assignments for <= 4 pixels
-        let sizes_small: Vec<(i32, i32)> = vec![(0, 0), (0, 2), (3, 0), (1, 1), (2, 1), (1, 2), (3, 1), (1, 3), (2, 2)];
+        let mut sizes_small: Vec<(i32, i32)> = vec![(0, 0), (0, 2), (3, 0), (1, 1), (2, 1), (1, 2), (3, 1), (1, 3), (2, 2)];
+        if !run.tier.quick() {
+            // thorough: every assignment to 5-pixel surfaces as well (12^5 each)
+            sizes_small.extend([(5, 1), (1, 5)]);
+        }
         for &(w, h) in &sizes_small {
             let n = (w * h) as usize;
             if q && n == 4 {
